@@ -9,7 +9,7 @@ func init() {
 	vRegister("HConf_Prefixes", HConf_Prefixes)
 }
 
-const hNPrefix = 8
+const hNPrefix = 10
 
 // prefix drives the world into a distinctive shape through real operations.
 func (x *hW) prefix(k int) {
@@ -54,6 +54,19 @@ func (x *hW) prefix(k int) {
 		x.opRemoveEntity(1)
 		x.opRemoveEntity(3)
 		x.opRemoveEntity(0)
+	case 8: // dead target with children whose id has been re-issued to a new entity
+		x.opNewEntity(0)
+		x.opBuilderNew(A|R1, uR1, true, x.h[0], true)
+		x.opBuilderNew(R1, uR1, true, x.h[0], true)
+		x.opRemoveEntity(0)
+		x.opNewEntity(0) // recycles the dead target's id
+		x.opNewEntityWith(A)
+	case 9: // graph edges created by multi-component add and remove in one call
+		x.opNewEntityWith(A | B | 1<<uC)
+		x.opExchange(0, 0, A|B, 2)
+		x.opNewEntityWith(1 << uC)
+		x.opNewEntityWith(A)
+		x.opExchange(3, B|1<<uC, 0, 1)
 	case 7: // second relation type and relation swap material
 		x.opNewEntity(0)
 		x.opBuilderNew(R2, uR2, true, x.h[0], false)
